@@ -193,7 +193,7 @@ def _run(ctx):
     ctx.log('swept %d/%d chunks, %d cases, %d runs, %d cuts, %.1fs'
             % (res.chunks_done, res.chunks_total, res.cases,
                c.get('runs', 0), c.get('cuts', 0), res.wall_s))
-    if res.nontrivial == 0 or not c.get('cuts') or \
+    if not res.violations and (res.nontrivial == 0 or not c.get('cuts') or \
             not c.get('records_gone_from_live') or \
             not c.get('cases_with_records_kept_live') or \
             not c.get('prunes_with_excess') or \
@@ -201,7 +201,7 @@ def _run(ctx):
             not c.get('error_runs_aborted') or \
             not c.get('second_cycle_checks') or \
             not c.get('size_cases_above_4MiB') or \
-            (tier != 'quick' and not c.get('size_cases_above_16MiB')):
+            (tier != 'quick' and not c.get('size_cases_above_16MiB'))):
         raise w.HarnessError('vacuous run: %r' % dict(c))
     violations = []
     w.install_clock()
